@@ -25,4 +25,11 @@ for sd in seeds:
                 print("    " + l[:500], flush=True)
         if r.returncode != 0:
             bad += 1
+        if tier == "thorough":
+            # keep the thorough tier's evidence beside the per-property file (which the next quick run rewrites)
+            import shutil
+            os.makedirs(os.path.join(VERIF, "evidence", "thorough"), exist_ok=True)
+            src = os.path.join(VERIF, "evidence", pid + ".json")
+            if os.path.exists(src):
+                shutil.copy(src, os.path.join(VERIF, "evidence", "thorough", "%s-seed%s.json" % (pid, sd)))
 print("runs with a non-zero exit: %d" % bad)
